@@ -234,11 +234,26 @@ def run(ctx: Ctx):
                 import traceback
                 ctx.violation(st.name, "raises", f"{type(e).__name__}: {str(e)[:150]}", {"stage": st.name, "n": n, "trace": traceback.format_exc()[-600:]})
     # ---- tau energy around the iterator buffer
-    big = [8191, 8192, 8193, 16385] if ctx.thorough else [8193]
+    # (and far beyond it: a production run samples 1e5..1e7 events in one call)
+    big = [8191, 8192, 8193, 16385, 65537, 131073, 300001] if ctx.thorough else [8193, int(rng.integers(65537, 90000))]
     for n in big:
         b = rng.uniform(0.0, 0.9, n); le = rng.uniform(6.0, 12.0, n); u = rng.uniform(0.001, 0.99, n)
         ref = tau.tau_energy(b.copy(), le.copy(), u.copy())
-        for k in (8191, 8192, 8193, n // 2):
+        ctx.count("tau_energy_big_batches")
+        if n > 20000:
+            idx = rng.integers(0, n, 80)
+            o = run_driver([f"tauenergy 3 {f2h(b[i])} {f2h(le[i])} {f2h(u[i])}" for i in idx])
+            one = np.array([float(tau.tau_energy(b[i:i + 1].copy(), le[i:i + 1].copy(), u[i:i + 1].copy())[0]) for i in idx])
+            ctx.case(("tau-bigpoint", n), None, n=len(idx))
+            if not same(ref[idx], one):
+                j = int(np.nonzero(~np.isclose(ref[idx], one, rtol=TOL, atol=0))[0][0])
+                ctx.violation("Taus.tau_energy", "batch-vs-single", f"event {int(idx[j])} of a {n}-event batch differs from the same event evaluated alone",
+                              {"n": n, "index": int(idx[j]), "in_batch": float(ref[idx[j]]), "alone": float(one[j]), "beta": float(b[idx[j]]),
+                               "log_e_nu": float(le[idx[j]]), "u": float(u[idx[j]])})
+            for i, t_ in zip(idx, o):
+                if t_[0] != "ok" or not close(h2f(t_[1]), ref[i], 1e-9):
+                    ctx.disagree("C11.tau_energy.big-batch-vs-pointwise-model", {"n": n, "index": int(i), "model": " ".join(t_), "code": float(ref[i])})
+        for k in ((8191, 8192, 8193, n // 2) if n <= 20000 else (n // 2,)):
             if 0 < k < n:
                 cat = np.concatenate([tau.tau_energy(b[:k].copy(), le[:k].copy(), u[:k].copy()), tau.tau_energy(b[k:].copy(), le[k:].copy(), u[k:].copy())])
                 ctx.case(("tau-bigsplit", n, k))
